@@ -39,6 +39,10 @@ type forwarder struct {
 	conns  []net.Conn
 	stall  bool
 	cond   *sync.Cond
+	// blackhole > 0: the next accepted connections are held open without forwarding a byte
+	// (the TLS ClientHello is never answered): a hang at connection level, before any response
+	blackhole int
+	held      []net.Conn
 }
 
 func newForwarder(target string) *forwarder {
@@ -60,6 +64,14 @@ func (f *forwarder) loop() {
 		if err != nil {
 			return
 		}
+		f.mu.Lock()
+		if f.blackhole > 0 {
+			f.blackhole--
+			f.held = append(f.held, c)
+			f.mu.Unlock()
+			continue
+		}
+		f.mu.Unlock()
 		up, err := net.Dial("tcp", f.target)
 		if err != nil {
 			c.Close()
@@ -117,6 +129,15 @@ func (f *forwarder) closeAll() {
 	f.mu.Unlock()
 }
 
+// blackholeNext makes the next connection hang in its TLS handshake; the established ones are
+// reset so that the next request has to dial.
+func (f *forwarder) blackholeNext() {
+	f.mu.Lock()
+	f.blackhole = 1
+	f.mu.Unlock()
+	f.resetAll()
+}
+
 func (f *forwarder) setStall(b bool) {
 	f.mu.Lock()
 	f.stall = b
@@ -127,7 +148,7 @@ func (f *forwarder) setStall(b bool) {
 // ---- fake DoH server ----------------------------------------------------------------------------
 
 type dohFault struct {
-	kind string // ok status empty oversize hang midhang trickle reset stall abort malformed
+	kind string // ok status empty oversize hang midhang trickle reset stall abort malformed shortcl finmid hshang
 	arg  int
 	salt int
 }
@@ -404,7 +425,20 @@ func init() {
 			sys.doh.mu.Lock()
 			sys.doh.cur = f
 			sys.doh.mu.Unlock()
+			if f.kind == "hshang" {
+				// no established connection + the next one never completes its handshake; the
+				// upstream serves new connections normally right afterwards
+				sys.doh.fwd.blackholeNext()
+			}
 			out := sys.query("doh", proto, payload)
+			if f.kind == "hshang" {
+				sys.doh.fwd.mu.Lock()
+				sys.doh.fwd.blackhole = 0
+				sys.doh.fwd.mu.Unlock()
+				sys.doh.mu.Lock()
+				sys.doh.cur = dohFault{kind: "ok", arg: 40, salt: 1}
+				sys.doh.mu.Unlock()
+			}
 			c.Emit("upf doh "+proto+" "+hx(payload)+" "+f.String(), out)
 			c.Stat("doh:" + f.kind)
 			if f.kind == "stall" {
@@ -478,7 +512,9 @@ func init() {
 			payload := r.sockQuery(adv)
 			if r.Chance(50) {
 				var f dohFault
-				switch r.Intn(16) {
+				switch r.Intn(17) {
+				case 16:
+					f = dohFault{kind: "hshang"}
 				case 0:
 					f = dohFault{kind: "status", arg: r.Pick([]int{500, 404, 403, 503, 204, 302})}
 				case 1:
